@@ -76,9 +76,15 @@ def pixel_data(w: World, n: int) -> SVar:
 
 
 def experiment(w: World, k: int, direct=True) -> SObj:
+    if direct:
+        efix = w.sv(f'efix{k}', 'ueV')
+        en = w.sv(f'en{k}', 'ueV', (3,), dims=['energy_transfer'])
+    else:  # indirect geometry: one fixed energy per detector, energy transfer per detector
+        efix = w.sv(f'efix{k}', 'ueV', (2,), dims=['detector'])
+        en = w.sv(f'en{k}', 'ueV', (2, 3), dims=['detector', 'energy_transfer'])
     return SObj(w.cls(MODELS, 'SqwIXExperiment'), {
-        'run_id': k, 'efix': w.sv(f'efix{k}', 'ueV'), 'emode': w.enum(MODELS, 'EnergyMode', 'direct'),
-        'en': w.sv(f'en{k}', 'ueV', (3,), dims=['energy_transfer']), 'psi': w.sv(f'psi{k}', 'deg'),
+        'run_id': k, 'efix': efix, 'emode': w.enum(MODELS, 'EnergyMode', 'direct' if direct else 'indirect'),
+        'en': en, 'psi': w.sv(f'psi{k}', 'deg'),
         'u': w.sv(f'eu{k}', None, kind='vector'), 'v': w.sv(f'ev{k}', None, kind='vector'), 'omega': w.sv(f'omega{k}', 'deg'),
         'dpsi': w.sv(f'dpsi{k}', 'rad'), 'gl': w.sv(f'gl{k}', 'deg'), 'gs': w.sv(f'gs{k}', 'deg'), 'filename': f'run{k}.nxs', 'filepath': '/data'})
 
@@ -126,7 +132,7 @@ class Written:
         self.n_runs = 0
 
 
-def build(repo: Repo, calls=('P', 'I', 'S', 'D', 'T'), byteorder='little', n_pixels=5, chunk=2, n_runs=1, target='memory', title='a title') -> Written:
+def build(repo: Repo, calls=('P', 'I', 'S', 'D', 'T'), byteorder='little', n_pixels=5, chunk=2, n_runs=1, target='memory', title='a title', indirect=False) -> Written:
     w = World(repo)
     out = Written()
     out.world, out.calls, out.byteorder, out.n_pixels, out.n_runs = w, tuple(calls), byteorder, n_pixels, n_runs
@@ -139,7 +145,7 @@ def build(repo: Repo, calls=('P', 'I', 'S', 'D', 'T'), byteorder='little', n_pix
     for c in calls:
         if c == 'P':
             sup['pixels'] = pixel_data(w, n_pixels)
-            sup['experiments'] = [experiment(w, k) for k in range(n_runs)]
+            sup['experiments'] = [experiment(w, k, direct=not indirect) for k in range(n_runs)]
             kind, b2 = w.call(repo.func(BUILD, 'SqwBuilder.add_pixel_data'), [sup['pixels']], {'experiments': sup['experiments']}, bound=b)
         elif c == 'I':
             sup['instrument'] = instrument(w)
